@@ -477,7 +477,11 @@ def c10_extra(tier, mi):
     for v in m["violations"]:
         if v["prop"] == "C10":
             viols.append({"key": v["key"], "what": v["what"], "engine": "e3", "args": ["hist"], "case": {"history": v["history"], "step": v["step"] & 0xFFF}})
-    return viols, {"states": m["prefixes"], "transitions": m["steps"], "histories_with_forced_booleans": m["histories"], "samples": m["samples"][:2]}
+    import e4
+    gv, gcov = e4.c10_gate(tier, mi)
+    viols += gv
+    return viols, {"states": m["prefixes"] + gcov["states"], "transitions": m["steps"] + gcov["transitions"], "histories_with_forced_booleans": m["histories"],
+                   "gate_signatures": gcov["gate_signatures"], "samples": m["samples"][:1] + gcov["samples"][:1]}
 
 
 def check_c10(tier):
@@ -566,6 +570,29 @@ def check_c04(tier):
     return finish("C04", tier, t0, cov, viols, COMMON_ASSUMPTIONS + E2_ASSUME, mi)
 
 
+def check_c09(tier):
+    import e4
+    t0 = time.time()
+    mi = mount()
+    viols, cov = e4.c09(tier, mi)
+    return finish("C09", tier, t0, cov, viols, COMMON_ASSUMPTIONS[2:] + [
+        "the generated programs are compiled against the unmodified crate; two fn-pointer types are 'written identically' when their type texts are equal after whitespace normalisation (one designated pair spells the unit return two ways)",
+        "pairs that differ only in lifetime spelling are executed but not judged"], mi)
+
+
+def check_c08(tier):
+    import e4
+    t0 = time.time()
+    mi = mount()
+    viols, cov = e4.c08(tier, mi)
+    if cov["distinct_outcomes"] < 2 and not viols:
+        raise MachineryError("vacuous exploration: fewer than two distinct outcomes")
+    return finish("C08", tier, t0, cov, viols, COMMON_ASSUMPTIONS[2:] + [
+        "generated programs are compiled by rustc against the unmodified crate (harness/realcrate is a verbatim copy of /repo/src; no mounting involved)",
+        "the canonical well-typed use per arm: (a: i32, out: &mut i32 | *mut i32) [-> i32], when: a == 1, assign: { *out += 10 }, returns: { count an evaluation; *out + a * 2 } (reads what assign wrote), times: N",
+        "a panic inside an extern \"C\"/\"system\" fake aborts by language rule: abort with the expected message on stderr is that arm's modelled outcome"], mi)
+
+
 CHECKS = {
     "C02": check_c02,
     "C03": check_c03,
@@ -581,6 +608,8 @@ CHECKS = {
     "C13": check_c13,
     "C10": check_c10,
     "C04": check_c04,
+    "C08": check_c08,
+    "C09": check_c09,
 }
 
 
@@ -617,6 +646,18 @@ def replay(pid, path):
         if rc:
             print(f"VIOLATION property={pid} replay={path}")
         return rc
+    if eng == "e4":
+        import e4
+        which = case["args"][0]
+        viols = (e4.c08("quick", mi)[0] if which == "c08" else e4.c09("quick", mi)[0] if which == "c09" else e4.c10_gate("quick", mi)[0])
+        hits = [v for v in viols if v["key"] == case["key"]]
+        for v in hits[:3]:
+            print(f"  {v['key']}: {v['what']}")
+        if hits:
+            print(f"VIOLATION property={pid} replay={path}")
+            return 1
+        print("[vcheck] replay: no violation")
+        return 0
     if eng == "e2":
         build(["e2"])
         r = subprocess.run([bin_path("e2")] + case["args"] + ["--replay", path], capture_output=True, text=True, cwd=WORK, env=env_offline())
